@@ -2486,6 +2486,103 @@ fn second_generation(sc: &uni::Scratch, u: &Uni, rep: &mut Report) {
 	r1.close();
 }
 
+/// The archive header moves on while a node is assembling its state (or the node is restarted in the middle): the
+/// node makes a new desegmenter for the new header on top of what it already holds and asks only for what is
+/// missing. Phase 1: segments of the state at an earlier archive header (the source when its head was 10 blocks
+/// lower) - bitmap, outputs and range proofs, never the kernels. Phase 2: the segments of the universe's archive
+/// header in order. Outputs that were unspent at the first header and are spent at the second stay in the
+/// receiver's MMR; only the final pass over the bitmap can take them out of the unspent set.
+fn rollover(sc: &uni::Scratch, u: &Uni, rep: &mut Report) {
+	let case = |what: &str| json!({"level": "e2e-rollover", "variant": u.variant.name, "heights": [u.variant.heights.0, u.variant.heights.1, u.variant.heights.2, u.variant.heights.3], "step": what});
+	for lower in [10usize, 0usize] {
+		// lower = 0: the same archive header again (a restart in the middle of the sync)
+		let n1 = u.blocks.len() - lower;
+		let dir1 = sc.fresh("src1");
+		let (segs1, a1) = {
+			let src1 = uni::open_chain(&dir1, &u.gen);
+			for b in u.blocks.iter().take(n1) {
+				src1.process_block(b.clone(), Options::NONE).expect("earlier source");
+			}
+			let a1 = src1.txhashset_archive_header().expect("archive header");
+			if lower > 0 && a1.height >= u.archive.height {
+				let _ = std::fs::remove_dir_all(&dir1);
+				continue;
+			}
+			match cut_segments(&src1, &a1, u.variant.heights) {
+				Ok((s, _, _)) => (s, a1),
+				Err(e) => {
+					rep.violation("e2e:rollover:earlier-source-cannot-serve", format!("variant {}: the source at head {} cannot serve its archive state: {}", u.variant.name, n1, e), case("phase 1 source"));
+					let _ = std::fs::remove_dir_all(&dir1);
+					continue;
+				}
+			}
+		};
+		let _ = std::fs::remove_dir_all(&dir1);
+		let name = if lower > 0 { format!("from-{}-to-{}", a1.height, u.archive.height) } else { "restart".to_string() };
+		for keep_trees in [vec![0u8, 1, 2], vec![0u8, 1]] {
+			let mut rx = Rx::open_with(sc, u, false);
+			rx.de = rx.chain.desegmenter(&a1).expect("desegmenter");
+			let mut failed = None;
+			for _round in 0..(segs1.len() + 4) {
+				for s in segs1.iter().filter(|s| keep_trees.contains(&s.tree)) {
+					let _ = rx.arrive(&s.body);
+				}
+				let mut g = rx.de.write();
+				if let Err(e) = g.as_mut().unwrap().apply_next_segments() {
+					failed = Some(format!("{:?}", e));
+					break;
+				}
+			}
+			if let Some(e) = failed {
+				rep.violation("e2e:rollover:first-phase-failed", format!("variant {} {}: apply_next_segments on honest segments: {}", u.variant.name, name, e), case("phase 1"));
+				rx.close();
+				continue;
+			}
+			let held = rx.obs(u).sizes;
+			// phase 2: a new desegmenter for the archive header of the universe
+			rx.de = rx.chain.desegmenter(&u.archive).expect("desegmenter");
+			rep.evaluations += 1;
+			rep.transitions += (segs1.len() + u.segs.len()) as u64;
+			let mut pending: Vec<bool> = vec![true; u.segs.len()];
+			let mut result: Option<Result<(), String>> = None;
+			for _round in 0..(u.segs.len() + 8) {
+				for (i, s) in u.segs.iter().enumerate() {
+					if pending[i] && rx.arrive(&s.body).is_ok() {
+						pending[i] = false;
+					}
+				}
+				let o = rx.tick(&|_| false);
+				if let Err(e) = o.apply {
+					result = Some(Err(format!("apply_next_segments: {}", e)));
+					break;
+				}
+				if let Some(f) = o.finish {
+					result = Some(f);
+					break;
+				}
+			}
+			let trees = if keep_trees.len() == 3 { "outputs+rangeproofs" } else { "outputs" };
+			match result {
+				Some(Ok(())) => {
+					let fp = state_fp(&rx.chain, &u.archive, &u.commits, true);
+					if fp == u.twin {
+						rep.outcome(&format!("rollover:{}:{}:equals-twin", name, trees));
+					} else {
+						rep.violation(
+							"e2e:rollover:final-state-differs",
+							format!("variant {} {} (held {:?} of {} before): the state assembled on top of a partial earlier sync differs from the twin: {:?}", u.variant.name, name, held, trees, fp).chars().take(900).collect::<String>(),
+							case("phase 2"),
+						);
+					}
+				}
+				Some(Err(e)) => rep.violation("e2e:rollover:honest-sync-failed", format!("variant {} {} (held {:?} of {} before): honest segments for the new archive header do not complete: {}", u.variant.name, name, held, trees, e), case("phase 2")),
+				None => rep.violation("e2e:rollover:never-completes", format!("variant {} {} (held {:?} of {} before): the sync loop never completes on honest segments", u.variant.name, name, held, trees), case("phase 2")),
+			}
+			rx.close();
+		}
+	}
+}
+
 fn run_e2e(tier: Tier, shard: usize, nsh: usize) -> Report {
 	uni::init_thread();
 	let mut rep = Report::new();
@@ -3272,11 +3369,31 @@ impl Engine for C16 {
 		}
 	}
 	fn parts(&self, tier: Tier) -> Vec<(&'static str, usize)> {
-		vec![("seg-exhaustive", tier.pick(2, 4)), ("seg-families", tier.pick(6, 8)), ("seg-plain", 1), ("bitmap", 1), ("e2e", tier.pick(10, 16)), ("archive", tier.pick(3, 8))]
+		vec![("seg-exhaustive", tier.pick(2, 4)), ("seg-families", tier.pick(6, 8)), ("seg-plain", 1), ("bitmap", 1), ("e2e", tier.pick(10, 16)), ("archive", tier.pick(3, 8)), ("rollover", tier.pick(4, 8))]
 	}
 	fn run_part(&self, part: &str, tier: Tier, shard: usize, n: usize) -> Report {
 		match part {
 			"e2e" => run_e2e(tier, shard, n),
+			"rollover" => {
+				uni::init_thread();
+				let sc = uni::Scratch::new("c16r");
+				let mut rep = Report::new();
+				for (k, v) in variants(tier).into_iter().enumerate() {
+					if !crate::par::mine(k as u64, shard, n) || v.name.contains('/') {
+						continue;
+					}
+					let mut local = Report::new();
+					let vv = v.clone();
+					let scr = &sc;
+					crate::chainx::guarded("rollover", &mut local, |r| {
+						let u = build_uni(scr, &vv);
+						rollover(scr, &u, r);
+						drop_uni(u);
+					});
+					rep.merge(local);
+				}
+				rep
+			}
 			"archive" => run_archive(tier, shard, n, None).0,
 			"bitmap" => run_bitmap(tier),
 			_ => run_seg(part, tier, shard, n),
@@ -3293,7 +3410,7 @@ impl Engine for C16 {
 		match case["level"].as_str() {
 			Some("segment") => replay_seg(case),
 			Some("e2e") => replay_e2e(case),
-			Some("e2e-second-generation") => {
+			Some(lv @ "e2e-second-generation") | Some(lv @ "e2e-rollover") => {
 				let sc = uni::Scratch::new("c16replay");
 				let name = case["variant"].as_str().ok_or("no variant")?;
 				let mut v = variants(Tier::Thorough).into_iter().find(|v| v.name == name).ok_or("unknown variant")?;
@@ -3303,7 +3420,11 @@ impl Engine for C16 {
 				}
 				let u = build_uni_checked(&sc, &v)?;
 				let mut rep = Report::new();
-				second_generation(&sc, &u, &mut rep);
+				if lv == "e2e-rollover" {
+					rollover(&sc, &u, &mut rep);
+				} else {
+					second_generation(&sc, &u, &mut rep);
+				}
 				let r = rep.violations.first().map(|v| format!("{}: {}", v.key, v.what));
 				drop_uni(u);
 				match r {
